@@ -246,6 +246,11 @@ def families(tier, seed):
         yield Instance(f"topo-unit-side|{tn}", mol(tok("N"), sto("[>]", [u1, "[<]CO[>]"], ["[<]Cl"], "[<]", g0(round(1.2 * mass(u1), 3))), tok("F")), family="role-topology")
         u2 = "[<]" + body + "[>]"
         yield Instance(f"topo-unit-backbone|{tn}", mol(tok("N"), sto("[>]", [u2], [], "[<]", g0(round(1.5 * mass(u2), 3))), tok("F")), family="role-topology")
+    # 17. mono-functional repeat units (chain stoppers): a random path can use up the last open descriptor before the
+    #     following element attaches - the notation then has no molecule for that path, the library must raise there
+    yield Instance("stopper|sym", mol(tok("N"), sto("[$]", ["[$]CC[$]", "[$|0.3|]F"], [], "[$]", g0(60.0)), tok("O")), family="chain-stopper")
+    yield Instance("stopper|dir", mol(tok("N"), sto("[>]", ["[<]CC[>]", "[<]Cl"], [], "[<]", g0(60.0)), tok("O")), family="chain-stopper")
+    yield Instance("stopper|two-objects", mol(tok("N"), sto("[$]", ["[$]CC[$]", "[$]F"], [], "[$]", g0(40.0)), sto("[$]", ["[$]CO[$]"], [], "[$]", g0(40.0)), tok("Br")), family="chain-stopper")
     # 16. objects whose two terminals are NOT a conjugate pair (step growth AA + BB: both terminals [>]; ids 1 / 2), as
     #     second element behind a prefix and in front of a suffix / another object
     yield Instance("nonconj|aabb", mol(tok("CC(=O)"), sto("[>]", ["[<]OCCO[<]", "[>]C(=O)CC(=O)[>]"], [], "[>]", g0(100.0)), tok("C(=O)C")), family="nonconjugate-terminals")
